@@ -141,6 +141,7 @@ class Item(object):
 class Timeline(object):
     def __init__(self, dicts, options=None, output_mode="svg"):
         # update latex options
+        options = {} if options is None else dict(options)
         latex_opts = {k: v for k, v in DEFAULT_OPTIONS["latex"].items()}
         if "latex" in options:
             latex_opts.update(options["latex"])
